@@ -84,8 +84,9 @@ Section Spec.
               if fi_skip f then default_value cdef f ft
               else if fi_flatten f then
                 (* the flatten member parses the unclaimed items, in order, as a list *)
+                (* (a derived struct or enum: the library's Option<T> does not take a list) *)
                 match ft with
-                | TStructR c' fs' =>
+                | TStructR _ _ | TEnumR _ _ _ =>
                     expected ft (NList (mkInfo (0,0,0,0)%N "") (mkPath (mkInfo (0,0,0,0)%N "") false []) (mkInfo (0,0,0,0)%N "") unclaimed)
                 | _ => None
                 end
